@@ -4,6 +4,7 @@ import collections
 import dataclasses
 import datetime
 import enum
+import pathlib
 import uuid
 
 
@@ -23,6 +24,13 @@ def _core(pp):
             self.x = x
 
     class LazySub(Lazy):
+        pass
+
+    class LazySub2(LazySub):
+        pass
+
+    class LazySub3(LazySub2):
+        # the by-name printer sits three classes up the MRO
         pass
 
     class Lazy2:
@@ -70,6 +78,8 @@ def _core(pp):
         Lazy2(0),
         12,
         'plain',
+        LazySub3(7),
+        [LazySub2(8), LazySub3(9)],
     ]
 
 
@@ -91,6 +101,8 @@ def _stdlib(pp):
         Colour.RED,
         Flagged.A,
         [Colour.RED, uuid.UUID(int=6)],
+        pathlib.PosixPath('/usr/lib'),          # PurePath, whose printer is registered by name, is four classes up
+        pathlib.PurePosixPath('/etc'),
     ]
 
 
